@@ -235,12 +235,29 @@ class Runner:
                     self.log(name, 'log', ins[1])
                 elif op in ('allof', 'anyof'):
                     evs = [slots[s] for s in ins[2:] if s in slots]
+                    mine = list(evs)
                     slots[ins[1]] = self.new((AllOf if op == 'allof' else AnyOf)(env, evs))
-                    self.hook('cond', slots[ins[1]], op, evs)
+                    evs.clear()          # the caller's list is the caller's: a condition must not alias it
+                    self.hook('cond', slots[ins[1]], op, mine)
                 elif op == 'request':
                     r = self.res[ins[2]]
+                    ub, qb = list(r.users), list(r.queue)
                     if self.case.res[ins[2]][0] == 'resource': slots[ins[1]] = self.new(r.request())
                     else: slots[ins[1]] = self.new(r.request(priority=ins[3], preempt=bool(ins[4])))
+                    if self.case.res[ins[2]][0] == 'preemptive':
+                        # oracle-only: who should have been evicted by this call, restating the rule on the public attributes as
+                        # they were before it: waiting requests are considered in rank order; each may evict the worst-ranked
+                        # user if that one ranks strictly worse, takes a free slot if there is one, otherwise the scan stops
+                        users = list(ub); want = []
+                        for e in sorted(qb + [slots[ins[1]]], key=lambda e: (e.key, self.lab(e))):
+                            if len(users) >= r.capacity and e.preempt:
+                                worst = max(users, key=lambda u: (u.key, self.lab(u)))
+                                if worst.key > e.key:
+                                    users.remove(worst); want.append(self.lab(worst))
+                            if len(users) < r.capacity: users.append(e)
+                            else: break
+                        self.notes.append(('evict', ins[2], env.now, want, [self.lab(u) for u in ub if u not in r.users],
+                                           [self.lab(u) for u in ub], [self.lab(u) for u in qb]))
                     self.notes.append(('req', self.nlabel, ins[2], ins[3], env.now, bool(ins[4])))
                 elif op == 'release':
                     if ins[3] in slots:
@@ -265,8 +282,12 @@ class Runner:
                     slots[ins[1]] = self.new(self.res[ins[2]].put(ins[3]))
                 elif op == 'sget':
                     r = self.res[ins[2]]
+                    before = list(r.items) if not r.get_queue else None      # older gets waiting: they are served first
                     if self.case.res[ins[2]][0] == 'fstore': slots[ins[1]] = self.new(r.get(FILTERS[ins[3]]))
                     else: slots[ins[1]] = self.new(r.get())
+                    g = slots[ins[1]]
+                    if before is not None and g.triggered:   # served on the spot from the items present: oracle-only record
+                        self.notes.append(('got-now', self.case.res[ins[2]][0], before, g.value, ins[3], env.now))
                 elif op == 'ret':
                     return ins[1]
                 elif op == 'raise':
